@@ -430,7 +430,7 @@ def warping_paths(s1, s2, psi_neg=True, keep_int_repr=False, **kwargs):
     """
     s = DTWSettings.for_dtw(s1, s2, **kwargs)
     if s.use_c:
-        return warping_paths_fast(s1, s2, psi_neg=psi_neg, **s.kwargs())
+        return warping_paths_fast(s1, s2, psi_neg=psi_neg, keep_int_repr=keep_int_repr, **s.kwargs())
     if np is None:
         raise NumpyException("Numpy is required for the warping_paths method")
     cost, result_fn, ival_fn = innerdistance.inner_dist_fns(s.inner_dist, use_ndim=s.use_ndim)
@@ -940,10 +940,13 @@ def distance_matrix_fast(s, max_dist=None, use_pruning=False, max_length_diff=No
 
 def warping_path(from_s, to_s, include_distance=False, use_ndim=False, **kwargs):
     """Compute warping path between two sequences."""
-    dist, paths = warping_paths(from_s, to_s, use_ndim=use_ndim, **kwargs)
-    path = best_path(paths)
+    s = DTWSettings(use_ndim=use_ndim, **kwargs)
+    _, result_fn, _ = innerdistance.inner_dist_fns(s.inner_dist, use_ndim=use_ndim)
+    # Trace back in the internal representation, such that the penalty can be taken into account
+    dist, paths = warping_paths(from_s, to_s, use_ndim=use_ndim, keep_int_repr=True, psi_neg=True, **kwargs)
+    path = best_path(paths, penalty=s.adj_penalty)
     if include_distance:
-        return path, dist
+        return path, result_fn(dist)
     return path
 
 
